@@ -121,6 +121,7 @@ fn run_check(prop: &str, tier: Tier) -> i32 {
         "C07" => {
             check.parts.extend(engines::mtu::run(tier, started));
             check.parts.extend(engines::pair::run("C07", tier, std::time::Instant::now()));
+            check.parts.extend(engines::cluster::run_traffic("C07", tier));
         }
         "C18" => {
             check.parts.extend(engines::catchup::run(tier, started));
@@ -150,6 +151,7 @@ fn run_check(prop: &str, tier: Tier) -> i32 {
         }
         "C08" => {
             check.parts.extend(engines::wire::run("C08", tier, started));
+            check.parts.extend(engines::cluster::run_traffic("C08", tier));
         }
         "C14" => {
             check.parts.extend(engines::pair::run("C14", tier, started));
